@@ -34,6 +34,7 @@ def bound_obligations(R, label, paths, bound_of, dec=None):
                 None)
 
 def check(R, tier):
+    R.fallback_kinds = {'meta'}
     I = R.interp('tough'); install_world(I)
     nch = 2
     R.bounds.update({'chunks per file': f'0..{nch} plus an optional endless tail', 'limits / lengths': 'any u64 (including 0)', 'root hops': 2,
